@@ -346,8 +346,155 @@ def numeric_term(c, o):
     raise ValueError(k)
 
 
+# ------------------------------------------------------------------ partials that store a mutable value (Generator / array)
+def gen_mutable(rng):
+    """history of calls / derived partials on  base = init(seed=<Generator>, **kw)  (or ring/line with a weights array)"""
+    if rng.random() < 0.75:
+        init = rng.choice(["uniform", "normal", "bernoulli", "orthogonal", "random_sparse"])
+        n = rng.randint(2, 7)
+        shape = [n, n] if init == "orthogonal" or rng.random() < 0.5 else [n, rng.randint(2, 7)]
+        kw = {}
+        if init != "orthogonal":
+            kw["connectivity"] = rng.choice([1.0, 0.5, 0.3])
+            kw["sparsity_type"] = rng.choice(["csr", "csc"])
+        if init == "random_sparse":
+            kw["dist"] = rng.choice(["uniform", "norm", "custom_bernoulli"])
+        c = {"kind": "mutable", "what": "generator", "init": init, "shape": shape, "kw": kw, "gen_seed": rng.randint(0, 10 ** 6)}
+    else:
+        init = rng.choice(["ring", "line"])
+        n = rng.randint(2, 7)
+        k = n if init == "ring" else n - 1
+        c = {"kind": "mutable", "what": "weights", "init": init, "shape": [n, n],
+             "kw": {"sparsity_type": rng.choice(["coo", "csr", "csc", "dense"])},
+             "weights": [str(core.dyadic(rng, 8, 2) or Fraction(1, 2)) for _ in range(k)],
+             "sr": str(abs(core.dyadic(rng, 12, 3)) + Fraction(1, 8))}
+    ops = []
+    for _ in range(rng.randint(2, 7)):
+        r = rng.random()
+        ops.append(["call", rng.randint(0, 50)] if r < 0.6 else ["scaled", rng.randint(0, 50)] if r < 0.75 else ["partial", rng.randint(0, 50)])
+    ops.append(["call", 0])
+    c["ops"] = ops
+    return c
+
+
+def run_mutable(c):
+    """returns dict(refs, results=[(kind, ref, dense matrix | None)], partials, user object, state snapshots)"""
+    m = mg()
+    init, shape, kw = c["init"], c["shape"], pykw(c["kw"])
+    obj = getattr(m, init)
+    if c["what"] == "generator":
+        user = np.random.default_rng(c["gen_seed"])
+        before = copy.deepcopy(user.bit_generator.state)
+        base = obj(seed=user, **kw)
+    else:
+        user = np.array([fl(x) for x in c["weights"]])
+        before = user.copy()
+        base = obj(weights=user, **kw)
+    partials, refs, results = [base], [], []
+    with warnings.catch_warnings():
+        warnings.simplefilter("ignore")
+        for op, raw in c["ops"]:
+            r = raw % len(partials)
+            refs.append(r)
+            p = partials[r]
+            if op == "call":
+                results.append(("call", r, p(*shape)))
+            elif op == "scaled":
+                # a rescaling request works in place on the freshly built matrix
+                try:
+                    if c["what"] == "generator":
+                        results.append(("scaled", r, p(*shape, input_scaling=0.5)))
+                    else:
+                        results.append(("scaled", r, p(*shape, sr=fl(c["sr"]))))
+                except Exception as e:
+                    if not env_skip(e):
+                        raise
+                    results.append(("scaled", r, None))
+            else:
+                # consumption-neutral override: the derived partial draws the same kind of matrix
+                over = {"sparsity_type": "csc" if kw.get("sparsity_type") == "csr" else "csr"} if "sparsity_type" in kw else {"foo": 1}
+                if c["init"] == "orthogonal" or (c["what"] == "weights" and kw.get("sparsity_type") in ("coo", "dense")):
+                    over = {"dtype": np.float64}
+                partials.append(p(**over))
+                results.append(("partial", r, None))
+    return {"refs": refs, "results": results, "partials": partials, "user": user, "before": before}
+
+
+def _judge_mutable(c):
+    try:
+        o = run_mutable(c)
+    except Exception as e:
+        return _viol("exception:%s:partial-mutable" % c["init"], "history on a partial storing a %s raises %r" % (c["what"], e), c)
+    first = {}
+    for k, (op, r, w) in enumerate(o["results"]):
+        if op != "call":
+            continue
+        if r not in first:
+            first[r] = w
+        elif not np.array_equal(dense(first[r]), dense(w)):
+            return _viol("purity:partial-application-alters-original",
+                         "partial #%d of %s (storing a %s) returns a different matrix at step %d than at its first call: calls / "
+                         "derived partials in between altered it" % (r, c["init"], c["what"], k), c, None, {"refs": o["refs"]})
+    if c["what"] == "generator":
+        if o["user"].bit_generator.state != o["before"]:
+            return _viol("purity:stored-generator-advanced",
+                         "the Generator handed to %s(seed=rng) was advanced by calls of the partial / of derived partials" % c["init"], c)
+        for i, p in enumerate(o["partials"]):
+            if p._kwargs["seed"].bit_generator.state != o["before"]:
+                return _viol("purity:stored-generator-advanced", "the Generator stored in partial #%d of %s moved" % (i, c["init"]), c)
+        direct = call_init(c["init"], c["shape"], c["kw"], np.random.default_rng(c["gen_seed"]))
+        if 0 in first and not np.array_equal(dense(first[0]), dense(direct)):
+            return _viol("purity:partial-generator-draw", "partial(seed=rng)(shape) differs from init(shape, seed=<equal rng>)", c)
+    else:
+        if not np.array_equal(o["user"], o["before"]):
+            return _viol("purity:stored-array-mutated", "the weights array stored by the %s partial was modified by a call" % c["init"], c,
+                         o["before"].tolist(), o["user"].tolist())
+    return None
+
+
+def mutable_term(c):
+    """correspondence with the Generator-cell heap model (model/MatGen.v part 1b)"""
+    o = run_mutable(c)
+    kw = c["kw"]
+    K = len(c["ops"]) + 2
+    rr = np.random.default_rng(c["gen_seed"])
+    states, draws = [], []
+    for _ in range(K):
+        states.append(copy.deepcopy(rr.bit_generator.state))
+        draws.append(dense(call_init(c["init"], c["shape"], kw, rr)))
+
+    if any(np.array_equal(draws[a], draws[b]) for a in range(K) for b in range(a)):
+        return "true", o   # successive draws coincide (tiny +-1 matrices): the stream position is not identifiable
+
+    def pos_of_state(st):
+        ks = [k for k in range(K) if states[k] == st]
+        return ks[0] if ks else None
+
+    obs = []
+    for op, r, w in o["results"]:
+        if op == "partial":
+            obs.append("None")
+            continue
+        if w is None:
+            return None, o
+        d = dense(w) * (2.0 if op == "scaled" else 1.0)
+        ks = [k for k in range(K) if np.array_equal(draws[k], d)]
+        if len(ks) != 1:
+            return "false", o
+        obs.append("(Some %s)" % nat(ks[0]))
+    up = pos_of_state(o["user"].bit_generator.state)
+    sp = [pos_of_state(p._kwargs["seed"].bit_generator.state) for p in o["partials"]]
+    if up is None or any(x is None for x in sp):
+        return "false", o
+    ops = coqlist(["(%s %s)" % ("GPartial" if op == "partial" else "GCall", nat(r)) for (op, _), r in zip(c["ops"], o["refs"])])
+    return "chk_gen %s %s %s %s" % (ops, coqlist(obs), nat(up), natlist(sp)), o
+
+
+
 def nontrivial(c, o):
     k = c["kind"]
+    if k == "mutable":
+        return len(set(o["refs"])) >= 2
     if k == "calls":
         return len(c["ops"]) >= 2 and len(o["heap"]) >= 2
     if k == "sr":
@@ -363,13 +510,18 @@ def nontrivial(c, o):
 
 def gen_corr(rng, n):
     cases = []
-    kinds = ["calls", "callsreal", "sr", "sr", "is", "ring", "line", "degree", "calls", "sr"]
+    kinds = ["calls", "callsreal", "sr", "sr", "is", "ring", "line", "degree", "calls", "sr", "gen"]
     for i in range(n):
         kind = kinds[i % len(kinds)]
         if kind == "calls":
             cases.append(gen_calls(rng, False))
         elif kind == "callsreal":
             cases.append(gen_calls(rng, True))
+        elif kind == "gen":
+            c = gen_mutable(rng)
+            while c["what"] != "generator":
+                c = gen_mutable(rng)
+            cases.append(c)
         else:
             cases.append(gen_numeric(rng, kind))
     return cases
@@ -385,6 +537,11 @@ def correspondence(ctx):
             if c["kind"] == "calls":
                 o = run_calls(c)
                 t = calls_term(c, o)
+            elif c["kind"] == "mutable":
+                t, o2 = mutable_term(c)
+                o = {"refs": o2["refs"]}
+                if t is None:
+                    raise RuntimeError("Starting vector is zero (env skip inside a history)")
             else:
                 o = run_numeric(c)
                 t = numeric_term(c, o)
@@ -409,7 +566,7 @@ def correspondence(ctx):
                     "module-level initialisers under partial application only), sr / input_scaling requests on every initialiser that "
                     "accepts them (n<=8, dense/sparse/degree), ring/line (n<=10, with/without weights), _random_degree (m,n<=9, in/out); "
                     "non-trivial = history of >=2 calls creating >=1 new initialiser, non-zero unscaled draw, n>=2, degree>=1 with >=2 "
-                    "stored entries; distinct by scenario text",
+                    "stored entries, Generator history touching >=2 partials; distinct by scenario text",
             "samples": [keep[0], keep[2], keep[min(7, len(keep) - 1)]],
             "distribution": dist, "tolerance": "1e-9 relative (qclose); exact equality for kwargs / index arrays",
             "failing": [dict(keep[i], index=i) for i in failing], "error": err}
@@ -724,6 +881,8 @@ def _judge(c):
 
 def judge(case):
     c = case["scenario"]
+    if c.get("kind") == "mutable":
+        return _judge_mutable(c)
     if c.get("kind") in ("sr", "is"):
         c2 = dict(c, kind="oracle", split=0)
         v = _judge(c2)
@@ -734,8 +893,15 @@ def judge(case):
 def oracle(ctx, scale=1):
     rng = ctx.rng("oracle")
     cases = [gen_oracle_case(rng, i) for i in range(ctx.n(350, 4000) * scale)] + null_radius_cases()
+    cases += [gen_mutable(rng) for _ in range(ctx.n(80, 600) * scale)]
     out, dist = [], {}
     for c in cases:
+        if c["kind"] == "mutable":
+            v = _judge_mutable(c)
+            dist["mutable:" + c["what"]] = dist.get("mutable:" + c["what"], 0) + 1
+            if v:
+                out.append(v)
+            continue
         v = _judge(c)
         if v and "skip" in v:
             dist["skip:" + v["skip"]] = dist.get("skip:" + v["skip"], 0) + 1
@@ -754,11 +920,16 @@ def oracle(ctx, scale=1):
                     "per-row/column degrees, value support, byte-identical repeat with the same seed, sr request = positive multiple of the "
                     "same-seed draw with numpy-eig radius == sr (rtol 1e-6) or an untouched null-radius draw, input_scaling = draw x scalar / "
                     "per-column, init(**k1)(**k2)(shape) == init(shape, **merged), module-level _kwargs unchanged; plus "
-                    "normal(5,5,sr=.9,connectivity=.1) for seeds 0..49"}
+                    "normal(5,5,sr=.9,connectivity=.1) for seeds 0..49; plus histories on partials storing a mutable value (numpy Generator "
+                    "as seed, weights array): every partial returns the same matrix at each of its calls, the stored / caller's "
+                    "Generator state and array are unchanged, partial(seed=rng)(shape) == init(shape, seed=equal rng)"}
 
 
 def replay(payload):
     c = payload["scenario"]
+    if c.get("kind") == "mutable":
+        v = _judge_mutable(c)
+        return {"violates": bool(v), "detail": v}
     if c.get("kind") in ("sr", "is"):
         c = dict(c, kind="oracle", split=0)
     v = _judge(c)
